@@ -127,8 +127,11 @@ impl Epoch {
         iers_only: bool,
         provider: L,
     ) -> Option<f64> {
+        // Compare durations, not floating point seconds: at these magnitudes an f64 cannot resolve
+        // better than ~240 ns, which made every leap second take effect that much too early.
+        let tai_duration = self.to_tai_duration();
         for leap_second in provider.rev() {
-            if self.to_tai_duration().to_seconds() >= leap_second.timestamp_tai_s
+            if tai_duration >= leap_second.timestamp_tai_s.seconds()
                 && (!iers_only || leap_second.announced_by_iers)
             {
                 return Some(leap_second.delta_at);
